@@ -9,7 +9,8 @@ COQ_TARGETS = ["theories/RunC04.vo"]
 PER_CASE_TIMEOUT = 15.0
 AUTHORITY = ("C04_fn (coq/props/C04.v): the substituted function denotes the original under the simultaneous substitution; "
              "C04_deps_*: the dependency pass yields a state extending the given one in which every dependent variable has the "
-             "value of its function, independent of the fuel, and fails as a whole otherwise")
+             "value of its function, independent of the fuel; C04_deps_order_free: any reordering of the dependency map gives the "
+             "same values; C04_deps_fails_iff: failure <=> no evaluation order exists (cycle / missing value)")
 RULE = ("fn_substitute: functions of degree <= 3 in every representation, 0-4 replacements of degree <= 2 that may mention "
         "replaced variables, unset replacement (panic); inst_substitute: one-step and two-step (chain) substitutions of used "
         "variables by functions of the remaining ones, then evaluation at an in-bound state over the remaining variables "
@@ -20,7 +21,7 @@ RULE = ("fn_substitute: functions of degree <= 3 in every representation, 0-4 re
 TRUSTED = ["hand-written models coq/theories/Subst.v and Inst.v (eval_deps) (tied by this correspondence only)"]
 ASSUMPTIONS = ["small dyadic numbers", "states assign no value to dependent variables",
                "replacement functions at instance level mention only remaining variables"]
-PLANNED = ["C04_deps_order_free / C04_deps_complete (Tier B): exercised by the observed-orders stream"]
+PLANNED = []
 SHARD = 120
 
 
